@@ -27,14 +27,24 @@ RULE = ("E1a: random real temporary trees (nested directories, empty and non-emp
         "--no-clean, none) versus the model's finalize: tree, events, graph. A case is non-trivial when something "
         "was removed or a guard fired with a non-empty candidate set; distinct by the dumped inputs. "
         "Oracle (no model): nothing outside ever-declared outputs is removed, static and adopted files survive, "
-        "modified regular outputs survive, guards are honoured, no directory of an attached static tree is removed.")
+        "modified regular outputs survive, guards are honoured, no directory of an attached static tree is removed. "
+        "Plan edits come in 1-3 rounds (a rerun of a creator re-declares each static file with probability 1/2, so "
+        "former static files become UNDECLARED inputs that keep their CONFIRMED hash, and lose their consumers in a "
+        "later round).  Directed family static-undeclared, every shape on every run, at the Workflow level and through "
+        "the real serve(): a file declared static() at plan level ls and read by a step at level lc; the static() "
+        "line goes while the consumer is declared again (same / new command / one more input; build incomplete); "
+        "then the consumer is dropped, stops using the file, or its sub-plan is dropped.  E3: harness/clean_e3gen.py "
+        "(nested sub-plans, static() lines dropped while in use) and harness/e3_gen.py histories with user tampering, "
+        "--no-clean and targets: whatever vanishes during a build was written by a step command, is not a source or "
+        "script of the project, and is unmodified unless volatile.")
 TRUSTED_BASE = [
     "Coq 8.16.1 kernel (vm_compute in Examples, generated-table facts and the correspondence evaluation)",
     "Print Assumptions: Closed under the global context for every C06 theorem",
     "translator/gen_clean.py (guard chain and cleanup calls of Builder.finalize, writers of file.state, "
     "_HASH_TRANSITIONS, file_clear_hash WHEN clause, before_delete states, revert SQL, clean.py SELECT_OUTPUTS, "
     "removal call sites and users of to_be_deleted)",
-    "harness/clean_common.py + p_c06.py (tree snapshots through FileHash.refreshed, graph dump by SQL, Gallina printers)",
+    "harness/clean_common.py + clean_e3gen.py + p_c06.py (tree snapshots through FileHash.refreshed, graph dump by SQL, "
+    "Gallina printers, scenario generators)",
     "model evaluated inside Coq by vm_compute; no extraction",
 ]
 ASSUMPTIONS = [
@@ -178,7 +188,7 @@ async def _clean_case(rng, hids):
                 made = b.grow(rng.randint(2, 6))
                 b.complete_all(made, fraction=rng.choice([1.0, 0.8]))
                 b.outdate_some(made, prob=0.45)
-                b.drop_random(made)
+                b.evolve(made)
                 edits = cc.user_edits(b, rng, made)
             async with w.db:
                 g = cc.dump_graph(w, hids)
@@ -253,8 +263,23 @@ def _clean_oracle(c):
 GUARDS = ["none", "none", "none", "targets", "incomplete", "no-clean", "none", "target_dirs"]
 
 
-async def _finalize_cases(ctx, n):
+async def _directed_cases(ctx):
+    """Every shape of the static-undeclared family (a former static file loses its declaration while a step still
+    reads it, then loses the consumer); variants rotate with the seed."""
     out = []
+    for j, shape in enumerate(cc.undeclared_shapes(ctx.scale(2, 3))):
+        for rep in range(ctx.scale(1, 3)):
+            with cc.project_dir():
+                k = 3 * (j + ctx.seed) + rep + (j + ctx.seed) // 3
+                w = cc.undeclared_witness(*shape, k)
+                r = await cc.disk_case(ctx.rng, "none", cc.HashIds(), witness=w, quiet=k % 4 != 0)
+                r["directed"] = w.info
+                out.append(r)
+    return out
+
+
+async def _finalize_cases(ctx, n, directed=True):
+    out = await _directed_cases(ctx) if directed else []
     for k in range(n):
         hids = cc.HashIds()
         guard = GUARDS[k % len(GUARDS)]
@@ -298,7 +323,7 @@ def _report(ctx, kind, name, sig, detail, witness):
 
 
 def _wit(res):
-    return {"operations": res["log"], "guard": res["guard"], "returncode": res["returncode"],
+    return {"directed": res.get("directed"), "operations": res["log"], "guard": res["guard"], "returncode": res["returncode"],
             "tree_before": res["before_fs"], "tree_after": res["after_fs"], "events": res["events"][-12:],
             "edits": res["edits"]}
 
@@ -367,6 +392,7 @@ def correspondence(ctx):
         ctx.case(("fin", repr(r["before_graph"]), repr(r["before_fs"]), r["guard"]), nrem > 0 or cc.guarded(r))
         ctx.count("finalize_removed_paths", nrem)
         ctx.count(f"finalize_guard_{r['guard']}", 1)
+        ctx.count("directed_static_undeclared_cases", int("directed" in r))
         ctx.count("finalize_actually_guarded", int(cc.guarded(r)))
     ctx.sample({"E1c": {"guard": fin[0]["guard"], "rc": fin[0]["returncode"], "removed": fin[0]["removed_events"],
                         "edits": fin[0]["edits"]}})
@@ -407,14 +433,24 @@ def oracle(ctx):
         emit("finalize:D12", "oracle:" + sig, detail, _wit(r))
     # E3 part: generated histories through the real serve()
     if cc.e3_available():
-        recs = cc.e3_histories(ctx.rng, ctx.scale(12, 150), 5000 + 1000 * ctx.seed)
+        stats = {}
+        recs = cc.e3_directed("static-undeclared", ctx.seed, 2, full=ctx.tier != "quick")
+        recs += cc.e3_histories(ctx.rng, ctx.scale(10, 120), 5000 + 1000 * ctx.seed, family="nested", stats=stats)
+        recs += cc.e3_histories(ctx.rng, ctx.scale(6, 75), 5000 + 1000 * ctx.seed)
+        for key, v in sorted(stats.items()):
+            ctx.count("e3_nested_gen_" + key, v)
         for rec in recs:
             if "error" in rec:
                 ctx.count("e3_harness_errors", 1)
+                ctx.notes.append(f"e3 {rec['family']} seed {rec['seed']} phase {rec['phase']}: {rec['error'][:160]}")
                 continue
             nrem = sum(1 for p in rec["before_files"] if p not in rec["after_files"])
-            ctx.case(("e3", rec["seed"], rec["phase"]), nrem > 0)
+            ctx.case(("e3", rec["family"], rec["seed"], rec["phase"]), nrem > 0)
             ctx.count("e3_builds", 1)
+            ctx.count(f"e3_builds_{rec['family']}", 1)
+            ctx.count("e3_undeclared_nodes_with_hash", sum(
+                1 for k, v in rec["graph"].items() if k.startswith("(file:") and v["props"].get("state") == ["UNDECLARED"]
+                and "digest" in v["props"]))
             ctx.count("e3_removed_files", nrem)
             ctx.count("e3_tampered_files", len(rec["tampered"]))
             for sig, detail in cc.e3_oracle_c06(rec):
